@@ -376,30 +376,26 @@ nested mutable access takes its own clone-or-in-place decision.  Its reference c
 *all* blocks are compared with the real `data->ref` after every operation of the
 correspondence run.
 
-Proved below for all histories made of the operations of `OpSup`: construction from literals,
-copy construction, `v = w`, `v = <any nested element of any variable, including of v itself>`
-(`get`, any path), swap, and `mut v path leaf` for *every path* (any depth) with the leaves
-assignment (from a variable or a literal), clear, the four mutable accessors, typed assignment
-of a scalar / a String / a temporary List or Array built from variables and literals, list
-and array append, prepend and remove, map insert (new key or overwrite) and remove, string
-append.  The values may be nested to any depth and share blocks in any way.  The ghost map `g`
-ties every block to a value by a local equation; reference count = handles in variables +
-handles stored in payloads + pending handles of the running operation (DeepInv.lean);
-`release` terminates within a fuel above the number of live blocks (DeepRelease.lean); a
-nested walk leaves its uniquely owned parent block untouched (DeepPriv.lean) and refines the
-nested value update (DeepWalk.lean).
+Proved below for all histories of all operations (`deep_refines`): construction from literals and
+from temporary containers, copy construction, `v = w`, `v = <any nested element of any variable,
+including of v itself>` (`get`, any path), swap, and `mut v path leaf` for every path (any depth)
+with every leaf — assignment, clear, the four mutable accessors, typed assignment of a scalar /
+String / temporary List, Array or HashMap (which may contain copies of the destination itself),
+list and array append, prepend and remove, map insert (new key or overwrite) and remove, string
+append.  The values may be nested to any depth and share blocks in any way.  The only hypothesis,
+`Deep.OpSup`, is syntactic: every literal occurring in the history is null, a scalar or a string
+(what a C++ caller can write as a temporary Variant; the line protocol has no other literals).
 
-OPEN: deep_refines  — the same statement without the hypothesis `∀ op ∈ ops, OpSup op`, i.e.
-  additionally for: typed assignment of a temporary HashMap; typed assignment of a temporary
-  List/Array that contains the destination variable itself (allowed on the variable itself);
-  construction (`new`) from a temporary container.  These operations are covered by `refines`
-  on the variable-level model and by the correspondence run (values and reference counts of
-  every block).                                                                                 -/
+Proof architecture: the ghost map `g` ties every block to a value by a local equation; reference
+count = handles in variables + handles stored in payloads + pending handles of the running
+operation (DeepInv.lean); `release` terminates within a fuel above the number of live blocks
+(DeepRelease.lean); a nested walk leaves its uniquely owned parent block untouched
+(DeepPriv.lean) and refines the nested value update (DeepWalk.lean); temporaries (DeepTemp.lean). -/
 
-/-- For every history of the operations of `OpSup` the deep model never faults, its abstract
+/-- For every history the deep model never faults, its abstract
     state is the specification store, and what it reads back from the heap (`readCell`, any fuel
     above the size of the value) is the specification's value. -/
-theorem deep_refines_partial (ds : DblSem) (ops : List Op) (hsup : ∀ op ∈ ops, Deep.OpSup op) :
+theorem deep_refines (ds : DblSem) (ops : List Op) (hsup : ∀ op ∈ ops, Deep.OpSup op) :
     ∃ s, Deep.drun ds Deep.dinit Store.init ops = some (s, specRun ds Store.init ops) ∧
       Deep.DGood s (specRun ds Store.init ops) ∧
       ∀ v, v < nvars → ∀ f, sizeOf (specRun ds Store.init ops v) < f →
@@ -469,6 +465,8 @@ def sampleDeepOps : List Op :=
     .mut 4 [.mk [107], .ar 0] (.set (.list [.var 0, .lit (.str [98]), .var 3])),
     .mut 4 [.mk [107], .ar 0] (.lrem 0),
     .mut 4 [] (.mput [107] (.lit (.bool true))),   -- overwrite: the whole nested structure is destroyed
+    .new 5 (.map [([97], .var 0), ([98], .var 5), ([97], .lit (.int 1))]),
+    .mut 3 [] (.set (.array [.var 3, .var 3])),    -- temporary holding copies of the destination itself
     .mut 1 [] .clear,
     .get 2 2 [.ar 0, .li 1],
     .swap 0 3 ]
@@ -476,10 +474,10 @@ def sampleDeepOps : List Op :=
 example : ∀ op ∈ sampleDeepOps, Deep.OpSup op := by
   intro op hop
   simp [sampleDeepOps] at hop
-  rcases hop with rfl | rfl | rfl | rfl | rfl | rfl | rfl | rfl | rfl | rfl | rfl | rfl | rfl | rfl | rfl <;>
+  rcases hop with rfl | rfl | rfl | rfl | rfl | rfl | rfl | rfl | rfl | rfl | rfl | rfl | rfl | rfl | rfl | rfl | rfl <;>
     simp [Deep.OpSup, Deep.LeafSupS, Deep.SrcLit, Deep.LitOk, Deep.setsSeq, LeafS.vars, ValS.vars, Src.vars]
 
-example : specRun ieee Store.init sampleDeepOps 0 = .list [.int 7, .str [97], .str [97]] ∧
+example : specRun ieee Store.init sampleDeepOps 0 = .array [.list [.int 7, .str [97], .str [97]], .list [.int 7, .str [97], .str [97]]] ∧
     specRun ieee Store.init sampleDeepOps 2 = .str [97] := by
   constructor <;> rfl
 
